@@ -35,6 +35,12 @@ pub fn run(t: &[&str]) -> String {
         // no_std build: the x86-64 JIT writes into caller-supplied executable memory
         #[cfg(harness_nostd)]
         { each!(&mut vm, v => { let _ = v.set_jit_exec_memory(crate::exec_mem_shared()); }) }
+        // no_std: a compilation consumes the executable memory the caller supplied, so the caller supplies it again before the next one — but only
+        // then: a `jit_compile` refused because no program is loaded has not compiled anything and must leave the memory in place
+        #[cfg(harness_nostd)]
+        let mut loaded = ip.is_some();
+        #[cfg(harness_nostd)]
+        let mut mem_consumed = false;
         let mut outs: Vec<String> = vec![];
         let res = |r: Result<(), RErr>| if r.is_ok() { "ok".to_string() } else { "err".to_string() };
         let val = |r: Result<u64, RErr>| match r { Ok(v) => format!("v{:016x}", v), Err(_) => "err".to_string() };
@@ -43,7 +49,10 @@ pub fn run(t: &[&str]) -> String {
             let o = match f[0] {
                 "sp" => { let Some(p) = f.get(1).and_then(|i| i.parse::<usize>().ok()).and_then(|i| poolref.get(i)) else { return "bad-op".into() };
                     let (d, e) = if f.len() == 4 { (f[2].parse().unwrap_or(0), f[3].parse().unwrap_or(8)) } else { (0, 8) };
-                    match &mut vm { Vm::Mbuff(v) => res(v.set_program(p)), Vm::Raw(v) => res(v.set_program(p)), Vm::NoData(v) => res(v.set_program(p)), Vm::Fixed(v) => res(v.set_program(p, d, e)) } }
+                    let r_ = match &mut vm { Vm::Mbuff(v) => res(v.set_program(p)), Vm::Raw(v) => res(v.set_program(p)), Vm::NoData(v) => res(v.set_program(p)), Vm::Fixed(v) => res(v.set_program(p, d, e)) };
+                    #[cfg(harness_nostd)]
+                    { if r_ == "ok" { loaded = true; } }
+                    r_ }
                 "sv" => { let vf: rbpf::Verifier = match f.get(1).copied() { Some("1") => v_accept, Some("2") => v_reject, _ => v_custom }; each!(&mut vm, v => res(v.set_verifier(vf))) }
                 "rh" => { let (Some(id), Some(fi)) = (f.get(1).and_then(|s| u32::from_str_radix(s, 16).ok()), f.get(2).and_then(|s| s.parse::<usize>().ok())) else { return "bad-op".into() };
                     each!(&mut vm, v => res(v.register_helper(id, HELPERS[fi % 4]))) }
@@ -52,7 +61,9 @@ pub fn run(t: &[&str]) -> String {
                 "jc" => each!(&mut vm, v => res(v.jit_compile())),
                 // no_std: jit_compile consumes the executable memory the caller supplied; supply it again for each compilation
                 #[cfg(harness_nostd)]
-                "jc" => each!(&mut vm, v => { let _ = v.set_jit_exec_memory(crate::exec_mem_shared()); res(v.jit_compile()) }),
+                "jc" => { if mem_consumed { each!(&mut vm, v => { let _ = v.set_jit_exec_memory(crate::exec_mem_shared()); }); }
+                    mem_consumed = loaded;
+                    each!(&mut vm, v => res(v.jit_compile())) }
                 #[cfg(not(harness_nostd))]
                 "cc" => each!(&mut vm, v => res(v.cranelift_compile())),
                 "x" => { let n: usize = f.get(1).and_then(|s| s.parse().ok()).unwrap_or(0); let mut m: Vec<u8> = vec![0x5a; n]; let mut b: [u8; 0] = [];
